@@ -176,22 +176,22 @@ class ReportCell(Cell):
         with world.notrace():
             project = world.parse(self.text)
             info = world.prepare(project, scenario=0)
-        project.attributes["scheduleGranularity"] = G
+        world.set_symbolic_granularity(project, G, spec.resolution)
         inject(spec, project, vals, self.markers)
         obs_l = []
         for sc in range(n_sc):
             if sc > 0:
                 with world.notrace():
-                    project.attributes["scheduleGranularity"] = spec.resolution
+                    project.attributes._g_sym = None
                     world.prepare_next_scenario(project, sc, info)
-                project.attributes["scheduleGranularity"] = G
+                project.attributes._g_sym = G
             world.run_scenario(project, sc)
             obs_l.append(world.observe(project, sc, info))
         # realise the scheduled values of this path; the report code then runs on concrete data
         obs_l = deep_realize(obs_l)
         rvals = deep_realize(vals)
         with world.notrace():
-            project.attributes["scheduleGranularity"] = spec.resolution
+            project.attributes._g_sym = None
             base, end = info["base"], info["end"]
             project.attributes["start"], project.attributes["end"] = base, end
             for t in project.tasks:
